@@ -239,6 +239,10 @@ def main(chk):
         elif kind == 'instance':
           y = nn.InstanceNorm(epsilon=eps).apply({'params': params}, xj)
           n2 = None
+        elif kind in ('gsize1', 'gsize2', 'gsize4'):
+          gs = int(kind[5:])
+          y = nn.GroupNorm(num_groups=None, group_size=gs, epsilon=eps).apply({'params': params}, xj)
+          n2 = nnx.GroupNorm(4, num_groups=None, group_size=gs, epsilon=eps, rngs=nnx.Rngs(0))
         elif kind in ('group1', 'group2'):
           y = nn.GroupNorm(num_groups=1 if kind == 'group1' else 2, epsilon=eps).apply({'params': params}, xj)
           n2 = nnx.GroupNorm(4, num_groups=1 if kind == 'group1' else 2, epsilon=eps, rngs=nnx.Rngs(0))
@@ -313,6 +317,18 @@ def main(chk):
         what = 'zero or x/(1-rate), with a data-independent mask'
       if not ok:
         chk.violation(key, f'Dropout(rate={rate}, deterministic={det}) is not {what} (Linen and NNX)', {})
+      if not det and 0.0 < rate < 1.0:
+        # the mask is independent of the data: dropped positions are exactly 0 whatever was there (inf / nan included)
+        xinf = x1.astype(np.float32).copy()
+        xinf[y1 == 0] = np.where(np.arange((y1 == 0).sum()) % 2 == 0, np.inf, np.nan)
+        yi = np.asarray(nn.Dropout(rate, deterministic=False).apply({}, jnp.asarray(xinf), rngs={'dropout': jax.random.key(7)}))
+        y3i = np.asarray(nnx.Dropout(rate, deterministic=False, rngs=nnx.Rngs(dropout=7))(jnp.asarray(xinf)))
+        chk.count(key + ':nonfinite')
+        if not np.array_equal(yi == 0, y1 == 0) or not np.array_equal(yi[y1 != 0], y1[y1 != 0]):
+          chk.violation(key + ':nonfinite', 'linen.Dropout: positions dropped by the key-determined mask are not 0 when the input there is inf / nan '
+                                            '(the mask depends on the data)', {})
+        if not np.array_equal(y3i == 0, y3 == 0):
+          chk.violation(key + ':nonfinite', 'nnx.Dropout: positions dropped by the key-determined mask are not 0 when the input there is inf / nan', {})
 
   # ------------------------------------------------------------------------------------------------ Dense / DenseGeneral / Einsum / Embed
   x = ints((2, 3, 4))
@@ -351,6 +367,60 @@ def main(chk):
     chk.count(('C12:einsum', spec))
     if not np.array_equal(y, np.einsum(spec, x, kern)):
       chk.violation(f'C12:einsum:{spec}', 'Einsum differs from the stated contraction', {})
+  # contractions decided by the specification (labels, bias placement, integer element codes): Linen and NNX
+  rc = tlc.require_ok(tlc.run('LayerIndex', 'LayerIndex_contract.cfg', workers=1, timeout=900), 'LayerIndex contract')
+  chk.add_tlc(rc, 'LayerIndex contractions (Dense / DenseGeneral / Einsum + bias placement)')
+  size = lambda lab: 2 if lab in 'ace' else 3
+
+  def coded(labels, mod, bias=False):
+    shape = tuple(size(l) for l in labels)
+    arr = np.zeros(shape, np.float32)
+    for ix in itertools.product(*[range(n) for n in shape]):
+      code = 0
+      for i in reversed(range(len(ix))):
+        code = ix[i] + 3 * code
+      arr[ix] = 10 * (1 + code) if bias else 1 + code % mod
+    return arr
+  for case in rc['exports']:
+    cfg = case['cfg']
+    l, r, o = cfg['l'], cfg['r'], cfg['o']
+    es = ''.join(l) + ',' + ''.join(r) + '->' + ''.join(o)
+    key = f"C12:contract:{cfg['kind']}:{es}"
+    xa, ka, ba = coded(l, 5), coded(r, 4), coded(case['bias_labels'], 0, bias=True)
+    exp = np.zeros(tuple(size(x) for x in o), np.float32)
+    for ix, v in case['out']:
+      exp[tuple(ix)] = v
+    outs = {}
+    try:
+      if cfg['kind'] == 'einsum':
+        outs['nn.Einsum'] = nn.Einsum(ka.shape, es).apply({'params': {'kernel': jnp.asarray(ka), 'bias': jnp.asarray(ba)}}, jnp.asarray(xa))
+        ne = nnx.Einsum(es, ka.shape, ba.shape, rngs=nnx.Rngs(0))
+        ne.kernel.value, ne.bias.value = jnp.asarray(ka), jnp.asarray(ba)
+        outs['nnx.Einsum'] = ne(jnp.asarray(xa))
+      elif cfg['kind'] == 'dense':
+        outs['nn.Dense'] = nn.Dense(ka.shape[-1]).apply({'params': {'kernel': jnp.asarray(ka), 'bias': jnp.asarray(ba)}}, jnp.asarray(xa))
+        nl = nnx.Linear(ka.shape[0], ka.shape[1], rngs=nnx.Rngs(0))
+        nl.kernel.value, nl.bias.value = jnp.asarray(ka), jnp.asarray(ba)
+        outs['nnx.Linear'] = nl(jnp.asarray(xa))
+      else:
+        axis, batch = tuple(cfg['axis']), tuple(cfg['batch'])
+        nfeat = len(r) - len(axis) - len(batch)
+        feats = ka.shape[len(r) - nfeat:]
+        outs['nn.DenseGeneral'] = nn.DenseGeneral(features=feats, axis=axis, batch_dims=batch).apply(
+            {'params': {'kernel': jnp.asarray(ka), 'bias': jnp.asarray(ba)}}, jnp.asarray(xa))
+        ax = tuple(a % len(l) for a in axis)
+        ng = nnx.LinearGeneral(tuple(xa.shape[a] for a in ax), feats, axis=axis, batch_axis={b: xa.shape[b] for b in batch}, rngs=nnx.Rngs(0))
+        ng.kernel.value, ng.bias.value = jnp.asarray(ka), jnp.asarray(ba)
+        outs['nnx.LinearGeneral'] = ng(jnp.asarray(xa))
+    except Exception as e:
+      chk.violation(key, f'raised {type(e).__name__}: {str(e)[:200]}', case['cfg'])
+      continue
+    chk.count(key)
+    for name, y in outs.items():
+      y = np.asarray(y)
+      if y.shape != exp.shape or not np.array_equal(y, exp):
+        chk.violation(key + ':' + name, f'{name}: {es} differs from the contraction plus bias placed at the kernel labels of the output '
+                                        f'(bias broadcast shape {case["bias_broadcast"]}); shape {y.shape} vs {exp.shape}', case['cfg'])
   emb = ints((6, 3))
   idx = rs.randint(0, 6, size=(2, 5))
   e = nn.Embed(6, 3)
